@@ -152,4 +152,9 @@ def _nontrivial(status, feats, stats):
     return status == "ok" and ("boolop_effect_operand" in feats or "loop_else_break" in feats)
 
 
-run, plan, replay, shrink = P.make(PID, check_program, _nontrivial)
+run, _plan, replay, shrink = P.make(PID, check_program, _nontrivial)
+
+
+def plan(tier, seed):
+    # the dispatch-loop interpreter is ~4x slower than a regenerated function
+    return _plan(tier, seed, quick=(90, 8, 32, 30, 2), thorough=(500, 10, 96, 200, 3))
